@@ -8,23 +8,7 @@ CW = {(0, 1), (1, 3), (3, 2), (2, 0)}
 CCW = {(b, a) for a, b in CW}
 
 
-def const_table(m, name):
-    """(element values, element width) of a constant integer array global, or None."""
-    g = m.globals.get(name)
-    if not g or not g.get("const") or "init" not in g:
-        return None
-    init = g["init"]
-    mt = re.match(r"\[(\d+) x i(\d+)\]", init.get("ty", ""))
-    if not mt:
-        return None
-    n, w = int(mt.group(1)), int(mt.group(2))
-    if init["k"] == "zero":
-        return [0] * n, w
-    if init["k"] == "cdata":
-        return [int(x) & ((1 << w) - 1) for x in init["elems"]], w
-    if init["k"] == "cagg" and all(e.get("k") == "int" for e in init["elems"]):
-        return [int(e["v"]) & ((1 << w) - 1) for e in init["elems"]], w
-    return None
+const_table = paths.const_table
 
 
 def check_decode(chk, m, fn, F):
